@@ -128,6 +128,20 @@ Theorem C04_real_same_value_core :
 Proof. exact (@real_same_value). Qed.
 Print Assumptions C04_real_same_value_core.
 
+(* exactly which values are real: for every row of the core family (row_core: the Device entry /
+   Tensor method / operand / composite is one whose data Tables/RealSem.core_data computes through
+   the kernel index programs) and every environment of the function's parameter types, the tensors
+   do not depend on the uninterpreted [other] at all; the user-level functions of the two classes
+   are listed in C04_real_nonvacuous_core_family below *)
+Theorem C04_real_core_values_are_kernel_programs :
+  forall (R : Type) (rO : R) (radd rmul rsub : R -> R -> R) (ropp : R -> R)
+         (other1 other2 : reach -> @tenv R -> list shape -> list (list R)) r,
+    In r api_table -> row_core r = true ->
+    forall env, env_typed (snd (m_fn r)) env = true ->
+      real_val rO radd rmul rsub ropp other1 (m_t r) env = real_val rO radd rmul rsub ropp other2 (m_t r) env.
+Proof. exact (@real_core_independent). Qed.
+Print Assumptions C04_real_core_values_are_kernel_programs.
+
 (* same accepted calls; every Tensor-API error other than a deferred value guard is reported when
    that very node is created; the Node API rejects nothing the Tensor API accepts *)
 Theorem C04_real_same_acceptance :
@@ -192,4 +206,19 @@ Example C04_real_nonvacuous_checker_rejects :
   srule_eqb (RScalarOp, [LSh 1; LSh 0]) (RScalarOp, [LSh 0; LSh 1]) = false /\
   List.length (filter (fun r => match m_t r with RDev _ _ _ => true | _ => false end) api_table) = 67 /\
   List.length (filter m_special api_table) = 4.
+Proof. vm_compute. repeat split; reflexivity. Qed.
+
+(* the delimitation of the value semantics: 28 user-level functions whose values are those of the
+   kernel index programs (40 rows of the table), 27 whose kernels stay an arbitrary deterministic function *)
+Example C04_real_nonvacuous_core_family :
+  core_functions =
+    ["positive"; "negative"; "add"; "subtract"; "multiply"; "input_tensor"; "parameter_tensor"; "copy"; "pick"; "slice";
+     "split"; "concat<X>"; "reshape"; "flatten"; "transpose"; "flip"; "permute_dims"; "matmul"; "sum"; "broadcast";
+     "stop_gradient"; "conv2d"; "batch::pick"; "batch::slice"; "batch::split"; "batch::concat<X>"; "batch::sum";
+     "constant_tensor"]%string /\
+  abstract_functions =
+    ["divide"; "pow"; "pown"; "abs"; "sqrt"; "exp"; "log"; "tanh"; "sigmoid"; "softplus"; "sin"; "cos"; "tan"; "relu";
+     "lrelu"; "prelu"; "elu"; "max"; "min"; "logsumexp"; "softmax_cross_entropy"; "max_pool2d"; "identity_tensor";
+     "random::bernoulli_tensor"; "random::uniform_tensor"; "random::normal_tensor"; "random::log_normal_tensor"]%string /\
+  List.length (filter row_core api_table) = 40.
 Proof. vm_compute. repeat split; reflexivity. Qed.
